@@ -19,12 +19,54 @@ def is_transparent(term):
         if k == t or c == t:
             return True
     n = term.cname
+    if n in ("project", "project_ref") and (k.endswith("::project") or k.endswith("::project_ref")):
+        return True  # pin-project generated field projection
     if n in ("deref", "deref_mut", "as_ref", "as_mut", "borrow", "borrow_mut", "clone", "as_mut_slice",
              "as_slice", "as_deref", "as_deref_mut", "get_mut", "get_ref", "by_ref"):
         # only std / core receivers (Option, Pin, arrays, Arc...) or trait methods of std traits
         if k.startswith(("std::", "core::", "alloc::", "[T", "<")):
             return True
     return False
+
+
+def into_to_from(t):
+    """`<A as Into<B>>::into` is the blanket impl; name the `From` impl it forwards to."""
+    ck = t.ckey or "indirect"
+    if ck == "<T as core::convert::Into<U>>::into" and t.gargs:
+        parts = split_gargs(t.gargs)
+        if len(parts) == 2:
+            return "<%s as core::convert::From<%s>>::from" % (strip_generics(parts[1]), parts[0])
+    if ck == "<T as core::convert::TryInto<U>>::try_into" and t.gargs:
+        parts = split_gargs(t.gargs)
+        if len(parts) == 2:
+            return "<%s as core::convert::TryFrom<%s>>::try_from" % (strip_generics(parts[1]), parts[0])
+    return ck
+
+
+def split_gargs(g):
+    g = g.strip()
+    if g.startswith("["):
+        g = g[1:-1]
+    out, depth, cur = [], 0, ""
+    for ch in g:
+        if ch in "<([":
+            depth += 1
+        elif ch in ">)]":
+            depth -= 1
+        if ch == "," and depth == 0:
+            out.append(cur.strip())
+            cur = ""
+        else:
+            cur += ch
+    if cur.strip():
+        out.append(cur.strip())
+    return out
+
+
+def strip_generics(t):
+    """`a::B<C, D>` -> `a::B` (keys name the self ADT without its parameters)."""
+    i = t.find("<")
+    return t if i < 0 or t.startswith("<") else t[:i]
 
 
 class Flow:
@@ -96,7 +138,7 @@ class Flow:
             args = tuple(self.origin(a, depth, seen) for a in t.args)
             if is_transparent(t) and args:
                 return args[0]
-            return ("call", t.ckey or "indirect", args, bb)
+            return ("call", into_to_from(t), args, bb)
         rv = d.rv
         r = rv.rv
         if r == "use":
@@ -284,3 +326,106 @@ def fmt(o, depth=0):
     if k == "phi":
         return "phi(%s)" % " | ".join(fmt(a, depth + 1) for a in o[1])
     return "%s" % (o,)
+
+
+# ---------------------------------------------------------------- inter-procedural inlining of small callees
+
+_RET_CACHE = {}
+
+
+def ret_origin(prog, body):
+    k = (id(prog), body.key)
+    if k not in _RET_CACHE:
+        _RET_CACHE[k] = Flow(body, prog).origin(Place({"l": 0}))
+    return _RET_CACHE[k]
+
+
+def _simple(o):
+    return not any(n[0] in ("unknown", "phi", "resume_arg") for n in walk(o))
+
+
+def _subst(o, args):
+    k = o[0]
+    if k == "param":
+        i = o[1] - 1
+        if i >= len(args):
+            return ("unknown", "param out of range")
+        a = args[i]
+        names = tuple(o[2])
+        if not names:
+            return a
+        if a[0] == "param":
+            return ("param", a[1], tuple(a[2]) + names)
+        if a[0] == "proj":
+            return ("proj", a[1], tuple(a[2]) + names)
+        return ("proj", a, names)
+    if k == "call":
+        return ("call", o[1], tuple(_subst(x, args) for x in o[2]), o[3])
+    if k == "agg":
+        return ("agg", o[1], tuple(_subst(x, args) for x in o[2]))
+    if k == "binop":
+        return ("binop", o[1], _subst(o[2], args), _subst(o[3], args))
+    if k == "unop":
+        return ("unop", o[1], _subst(o[2], args))
+    if k == "cast":
+        return ("cast", _subst(o[1], args), o[2])
+    if k == "discr":
+        return ("discr", _subst(o[1], args))
+    if k == "proj":
+        return ("proj", _subst(o[1], args), o[2])
+    return o
+
+
+def inline(prog, o, depth=3):
+    """Replace calls to small in-workspace functions (single-expression return over their
+    parameters) by that expression; `Into::into` resolves to the matching `From` impl."""
+    k = o[0]
+    if k == "call":
+        args = tuple(inline(prog, a, depth) for a in o[2])
+        if depth > 0:
+            key = o[1]
+            cands = prog.by_key.get(key, [])
+            if len(cands) == 1 and not cands[0].coroutine:
+                r = ret_origin(prog, cands[0])
+                if _simple(r) and len(list(walk(r))) <= 12:
+                    return inline(prog, _subst(r, args), depth - 1)
+        return ("call", o[1], args, o[3])
+    if k == "agg":
+        return ("agg", o[1], tuple(inline(prog, x, depth) for x in o[2]))
+    if k == "binop":
+        return ("binop", o[1], inline(prog, o[2], depth), inline(prog, o[3], depth))
+    if k == "unop":
+        return ("unop", o[1], inline(prog, o[2], depth))
+    if k == "cast":
+        return ("cast", inline(prog, o[1], depth), o[2])
+    if k == "discr":
+        return ("discr", inline(prog, o[1], depth))
+    if k == "proj":
+        base = inline(prog, o[1], depth)
+        # projection of a known aggregate: pick the field when it is positional
+        if base[0] == "agg" and len(o[2]) >= 1 and o[2][0].isdigit() and int(o[2][0]) < len(base[2]):
+            inner = base[2][int(o[2][0])]
+            rest = tuple(o[2][1:])
+            if not rest:
+                return inner
+            if inner[0] == "param":
+                return ("param", inner[1], tuple(inner[2]) + rest)
+            return ("proj", inner, rest)
+        if base[0] == "param":
+            return ("param", base[1], tuple(base[2]) + tuple(o[2]))
+        return ("proj", base, o[2])
+    if k == "phi":
+        return ("phi", tuple(inline(prog, x, depth) for x in o[1]))
+    return o
+
+
+def is_rewrap(o, adt=None, param=1):
+    """agg Adt{ param.<fields only> } with no arithmetic and no remaining calls."""
+    if o[0] != "agg" or len(o[2]) != 1:
+        return False
+    if adt is not None and not o[1].startswith(adt + "::"):
+        return False
+    x = o[2][0]
+    while x[0] == "cast":
+        x = x[1]
+    return x[0] == "param" and x[1] == param
